@@ -765,6 +765,12 @@ func (e *EvalCtx) call(n *XNode) Val {
 	case "fneg":
 		need(1)
 		return S{app("f_neg", e.evalS(args[0]).T), types.Typ[types.Float64]}
+	case "fdiv":
+		need(2)
+		return S{app("div", e.evalS(args[0]).T, e.evalS(args[1]).T), intT}
+	case "fmod":
+		need(2)
+		return S{app("mod", e.evalS(args[0]).T, e.evalS(args[1]).T), intT}
 	case "pow2":
 		need(1)
 		return S{app("pow2", e.evalS(args[0]).T), intT}
